@@ -371,29 +371,32 @@ Proof.
     exact (same_trans _ _ _ S1 IH).
 Qed.
 
+Lemma same_shield_proceed : forall st id last outer thr, same st (fst (fst (shield_proceed st id last outer thr))).
+Proof.
+  intros. unfold shield_proceed. destruct last as [m|]; [|apply same_refl].
+  destruct (reschedule_delayed st m) as [st1 ok] eqn:E.
+  assert (S1 : same st st1) by (replace st1 with (fst (reschedule_delayed st m)) by (rewrite E; reflexivity);
+                                 apply same_reschedule_delayed).
+  destruct ok; simpl; [exact S1|]. eapply same_trans; [exact S1|sm].
+Qed.
+
 Lemma same_shield_resume : forall st id wt last v outer,
   same st (fst (fst (shield_resume st id wt last v outer))).
 Proof.
   intros. unfold shield_resume.
-  assert (P : forall st0, same st0 (fst (fst
-     match cancel_msg_of v last with
-     | Some m => let '(st1, ok) := reschedule_delayed st0 m in
-                 if ok then (st1, FShield id ShRun None true :: outer, RDeliver None)
-                 else (set_g_abort st1 true, outer, RAbort)
-     | None => (st0, FShield id ShRun None true :: outer, RDeliver None)
-     end))).
-  { intros st0. destruct (cancel_msg_of v last) as [m|]; [|apply same_refl].
-    destruct (reschedule_delayed st0 m) as [st1 ok] eqn:E.
-    assert (S1 : same st0 st1) by (replace st1 with (fst (reschedule_delayed st0 m)) by (rewrite E; reflexivity);
-                                   apply same_reschedule_delayed).
-    destruct ok; simpl; [exact S1|]. eapply same_trans; [exact S1|sm]. }
-  destruct wt as [| |f o]; try apply P.
-  destruct (fut_done st f); [apply P|].
-  destruct (mk_shield st f) as [st1 o1] eqn:E.
-  assert (S1 : same st st1) by (replace st1 with (fst (mk_shield st f)) by (rewrite E; reflexivity); apply same_mk_shield).
-  pose proof (same_yield_out outer (YFut o1) st1) as S2.
-  destruct (yield_out outer (YFut o1) st1) as [[st2 k2] y2]. cbn [fst] in S2 |- *.
-  exact (same_trans _ _ _ S1 S2).
+  destruct wt as [| |f o]; try apply same_shield_proceed.
+  assert (Q : same st (fst (fst (if fut_done st f
+      then shield_proceed st id (cancel_msg_of v last) outer (fut_exc st f)
+      else let '(st0, o0) := mk_shield st f in
+           let '(st1, outer', y') := yield_out outer (YFut o0) st0 in
+           (st1, FShield id (ShFut f o0) (cancel_msg_of v last) true :: outer', RYield y'))))).
+  { destruct (fut_done st f); [apply same_shield_proceed|].
+    destruct (mk_shield st f) as [st1 o1] eqn:E.
+    assert (S1 : same st st1) by (replace st1 with (fst (mk_shield st f)) by (rewrite E; reflexivity); apply same_mk_shield).
+    pose proof (same_yield_out outer (YFut o1) st1) as S2.
+    destruct (yield_out outer (YFut o1) st1) as [[st2 k2] y2]. cbn [fst] in S2 |- *.
+    exact (same_trans _ _ _ S1 S2). }
+  destruct v as [[m| |]|]; first [exact Q|apply same_shield_proceed].
 Qed.
 
 Lemma same_resume_in : forall k v st, same st (fst (fst (resume_in k v st))).
@@ -448,6 +451,14 @@ Proof.
       assert (S2 : same st1 st2).
       { replace st2 with (fst (call_at st1 (time st1 + S d) (HSetRes f))) by (rewrite E2; reflexivity). apply same_call_at. }
       apply acct_do_yield. exact (same_acct _ _ (same_trans _ _ _ S1 S2) Ha).
+  - destruct (new_fut (emit st (EvStart id (time st)))) as [st1 f] eqn:E1.
+    assert (S1 : same st st1).
+    { replace st1 with (fst (new_fut (emit st (EvStart id (time st))))) by (rewrite E1; reflexivity).
+      eapply same_trans; [apply same_emit|apply same_new_fut]. }
+    destruct (call_at st1 (time st1 + d) (HSetExc f)) as [st2 h] eqn:E2.
+    assert (S2 : same st1 st2).
+    { replace st2 with (fst (call_at st1 (time st1 + d) (HSetExc f))) by (rewrite E2; reflexivity). apply same_call_at. }
+    apply acct_do_yield. exact (same_acct _ _ (same_trans _ _ _ S1 S2) Ha).
   - apply acct_do_yield. exact Ha.
   - apply acct_do_yield. exact Ha.
   - exact Ha.
@@ -537,7 +548,8 @@ Proof.
       (destruct (f_st (get_fut st f));
        [exact (same_acct _ _ (same_fut_finish st outer FRes) Ha)
        |exact (same_acct _ _ (same_fut_finish st outer FRes) Ha)
-       |exact (same_acct _ _ (same_fut_finish st outer (FCanc None)) Ha)]).
+       |exact (same_acct _ _ (same_fut_finish st outer (FCanc None)) Ha)
+       |exact (same_acct _ _ (same_fut_finish st outer FExc) Ha)]).
   - destruct (fut_done st inner); [exact Ha|]. exact (same_acct _ _ (same_remove_cb st inner (CbInner f)) Ha).
 Qed.
 
@@ -548,6 +560,7 @@ Proof.
   - apply acct_task_step; exact Ha.
   - apply acct_run_cb; exact Ha.
   - destruct (f_st (get_fut st f)); try exact Ha; exact (same_acct _ _ (same_fut_finish st f FRes) Ha).
+  - exact (same_acct _ _ (same_fut_finish st f FExc) Ha).
   - exact (proj1 (good_scope_cancel st s Hl) Ha).
   - exact (proj1 (good_deliver st s Hl) Ha).
   - rewrite Hl. exact (proj1 (good_task_uncancel_cancel st m Hl) Ha).
